@@ -426,7 +426,8 @@ func dirCtor(c *Ctx, fn *ssa.Function) {
 	}
 	// every trip through the body appends the entry's Name() exactly once to the list of names: either directly to the
 	// source's field, or to a local slice that is later stored into that field
-	var acc *ssa.Phi // local-slice form: the loop-carried slice
+	var acc *ssa.Phi     // local-slice form: the loop-carried slice
+	var filled ssa.Value // indexed-fill form with a local slice
 	for _, in := range theLoop.Header.Instrs {
 		if phi, ok := in.(*ssa.Phi); ok && shortType(phi.Type()) == "[]string" {
 			acc = phi
@@ -441,6 +442,32 @@ func dirCtor(c *Ctx, fn *ssa.Function) {
 			for _, in := range b.Instrs {
 				switch x := in.(type) {
 				case *ssa.Store:
+					// indexed fill: list[i] = entry.Name() with i the loop's own index and list made with the listing's length
+					if ia, isIA := x.Addr.(*ssa.IndexAddr); isIA && shortType(deref(ia.Type())) == "string" {
+						listing := ssa.Value(nil)
+						for _, r := range *readDir.Referrers() {
+							if ex, ok := r.(*ssa.Extract); ok && ex.Index == 0 {
+								listing = ex
+							}
+						}
+						if r, _ := isRangeIndexOver(ia.Index, listing); r && listing != nil {
+							if owner, ok := madeWithLenOf(ia.X, listing); ok {
+								if hasNameCall(x.Val) {
+									appends++
+									if owner != nil {
+										src = owner
+									} else {
+										filled = ia.X
+									}
+								} else {
+									problems = append(problems, p.ipos(x)+": stored value is not the entry's Name()")
+								}
+							} else {
+								problems = append(problems, p.ipos(x)+": the list that is filled by index was not made with the listing's length")
+							}
+						}
+						continue
+					}
 					fa, ok := x.Addr.(*ssa.FieldAddr)
 					if !ok || fieldName(fa.X.Type(), fa.Field) != filesField(fa.X.Type()) || typeName(fa.X.Type()) != "journal.DirectoryGtfsrtSource" {
 						continue
@@ -491,6 +518,9 @@ func dirCtor(c *Ctx, fn *ssa.Function) {
 				}
 			}
 			return false
+		}
+		if filled != nil && v == filled {
+			return true
 		}
 		return acc != nil && v == ssa.Value(acc)
 	}
@@ -637,4 +667,48 @@ func runUnmarshalDiscipline(c *Ctx) {
 		}
 	}
 	c.Check(ok, "UNMARSHAL", shortName(pr), "a message that does not decode is an error", p.pos(pr.Pos()), "proto.Unmarshal's error leads to `return nil, err`", "ParseRealtime does not report a decoding failure as an error: corrupt files would be journaled as empty feeds")
+}
+
+// madeWithLenOf: slice value s is make([]T, len(listing)) -- directly, or as the only value ever stored into the
+// field of a local object it is loaded from (then that object is returned as owner).
+func madeWithLenOf(s, listing ssa.Value) (owner ssa.Value, ok bool) {
+	isMake := func(v ssa.Value) bool {
+		ms, ok := v.(*ssa.MakeSlice)
+		if !ok {
+			return false
+		}
+		l, ok := lenOf(ms.Len)
+		return ok && l == listing
+	}
+	if isMake(s) {
+		return nil, true
+	}
+	ld, isLd := s.(*ssa.UnOp)
+	if !isLd || ld.Op != token.MUL {
+		return nil, false
+	}
+	fa, isFA := ld.X.(*ssa.FieldAddr)
+	if !isFA {
+		return nil, false
+	}
+	al, isAl := fa.X.(*ssa.Alloc)
+	if !isAl {
+		return nil, false
+	}
+	n := 0
+	for _, r := range *al.Referrers() {
+		fa2, ok := r.(*ssa.FieldAddr)
+		if !ok || fa2.Field != fa.Field {
+			continue
+		}
+		for _, r2 := range *fa2.Referrers() {
+			if st, ok := r2.(*ssa.Store); ok && st.Addr == ssa.Value(fa2) {
+				n++
+				if !isMake(st.Val) {
+					return nil, false
+				}
+			}
+		}
+	}
+	return al, n > 0
 }
